@@ -1464,6 +1464,7 @@ def split_header(text):
 
 def check_C16(tier, seed, replay):
     import hashlib
+    import shutil
     import zlib
     from concurrent.futures import ThreadPoolExecutor
     import peg
@@ -1509,10 +1510,19 @@ def check_C16(tier, seed, replay):
                 pf = prefixes[proc % len(prefixes)]
                 jobs.append(("buildscript", g.id, sname, proc,
                              [front, "compile", pth, dvs, os.path.join(tdir, "%s.%s.bs%d.rs" % (g.id, sname, proc)), pf], pf, text, cenv))
+                if proc == 0:
+                    # Compile::directory: the grammar two levels down a directory tree, next to another grammar
+                    dd = os.path.join(tdir, "dir.%s.%s" % (g.id, sname))
+                    shutil.rmtree(dd, ignore_errors=True)
+                    os.makedirs(os.path.join(dd, "a", "b"))
+                    open(os.path.join(dd, "a", "b", "g.ebnf"), "w").write(text)
+                    open(os.path.join(dd, "a", "other.ebnf"), "w").write("@export\nOther = 'o';\n")
+                    pf2 = prefixes[(proc + 1) % len(prefixes)]
+                    jobs.append(("builddir", g.id, sname, proc, [front, "compiledir", dd, dvs, pf2], pf2, text, cenv))
 
     def run(job):
         route, gid, sname, proc, cmd, pf, text, cenv = job
-        if route != "cli" and os.path.exists(cmd[4]):
+        if route in ("lib", "buildscript") and os.path.exists(cmd[4]):
             os.remove(cmd[4])
         r = run_door(cmd, extra_env=cenv)
         return r
@@ -1533,7 +1543,7 @@ def check_C16(tier, seed, replay):
             framed = ok and rest.startswith("\n") and rest.endswith("\n") and ("grammar file: " + crc) in r["out"]
             body = rest[1:-1] if framed else rest
         else:
-            content = open(cmd[4]).read()
+            content = open(cmd[4] if route == "buildscript" else os.path.join(cmd[2], "a", "b", "g.rs")).read()
             ok, rest = split_header(content)
             lead = "\n" + pf + "\n"
             framed = ok and rest.startswith(lead) and ("grammar file: " + crc) in content
@@ -1548,13 +1558,13 @@ def check_C16(tier, seed, replay):
     if not ok:
         e = events[line - 1]
         first = next(x for x in events if x["g"] == e["g"] and x["s"] == e["s"])
-        what = ("the %s route does not frame the code as documented (header%s)" % (e["route"], " + prefix" if e["route"] == "buildscript" else "")
+        what = ("the %s route does not frame the code as documented (header%s)" % (e["route"], " + prefix" if e["route"] in ("buildscript", "builddir") else "")
                 if not e["framed"] else
                 "the %s route (process %d) emitted different code for grammar %s settings %s than the %s route (process %d)" % (
                     e["route"], e["proc"], e["g"], e["s"], first["route"], first["proc"]))
         res.add(Violation("C16", "Routes", what, None, {"name": e["g"], "site": "%s:%s" % (e["route"], e["s"]), "rejected_event": e}))
     res.coverage = {
-        "explanation": "byte identity decides: %d observations (library / peginator-cli / Compile route x %d grammars x %d derive sets x %d "
+        "explanation": "byte identity decides: %d observations (library / peginator-cli / Compile::file / Compile::directory route x %d grammars x %d derive sets x %d "
                        "fresh processes, 3 prefixes) reduced to digests of the code after each route's framing; the TLA+ trace "
                        "specification Routes.tla accepts the observation sequence iff one function F(grammar, settings) explains all "
                        "of them; the peginate! route is compared behaviourally (%d cases: full outcome incl. Debug tree, tracer "
